@@ -82,6 +82,9 @@ type Ctx struct {
 	caseNo  uint64
 	maxViol int
 	Single  bool // replay / witness mode: run exactly one case
+	// SigTag, when set, is appended to every signature ("sig@tag"): used by sub-workloads whose known findings
+	// must not mask the same signature in the main workloads.
+	SigTag string
 }
 
 func NewCtx(prop, tier string, seed uint64, shard, nshards int, repo string) *Ctx {
@@ -230,6 +233,9 @@ func (c *Ctx) Sample(entry, input, note string) {
 // Violate records a violation (deduplicated by signature; first witness kept,
 // but a shorter witness replaces a longer one).
 func (c *Ctx) Violate(sig, entry, input, detail string) {
+	if c.SigTag != "" {
+		sig += "@" + c.SigTag
+	}
 	key := sig
 	if i, ok := c.violIdx[key]; ok {
 		v := &c.Res.Violations[i]
